@@ -12,7 +12,7 @@ Fixpoint dec_digits (fuel : nat) (z : Z) (acc : bytes) : bytes :=
   | S k => let acc' := (48 + z mod 10) :: acc in
            if z <? 10 then acc' else dec_digits k (z / 10) acc'
   end.
-Definition dec_fuel (z : Z) : nat := S (Z.to_nat (Z.log2 z)).
+Definition dec_fuel (z : Z) : nat := S (S (Z.to_nat (Z.log2 z))).  (* more than the number of digits *)
 Definition print_dec (z : Z) : bytes :=
   if z <? 0 then 45 :: dec_digits (dec_fuel (- z)) (- z) [] else dec_digits (dec_fuel z) z [].
 
